@@ -20,9 +20,11 @@ BUDGET = {'quick': 200, 'thorough': 2500}
 TIME = {'quick': 70, 'thorough': 840}
 EXHAUSTIVE = True
 RULE = ('case = pre-existing sys / threading trace functions (none or a host function each) x NO_TRACE x 0-3 custom plugins '
-        'x a sequence of 1-7 operations (start, shutdown, hit = run a traced host function with a log tracepoint, late config '
-        'update, failing poll) where every shutdown carries a fault assignment: which plugins raise in shutdown() (Exception or '
-        'BaseException class), which of 0-3 pending sends fail, whether the sends are still running when shutdown starts, '
+        'x a sequence of 1-11 operations (start, shutdown, hit = run a traced host function with a log tracepoint, late config '
+        'update, failing poll, the application installing OTHER trace functions while the agent is shut down followed by a '
+        'second start/shutdown cycle) where every shutdown carries a fault assignment: which plugins raise in shutdown() (Exception or '
+        'BaseException class), which of 0-3 pending sends fail, whether the sends are still in flight when shutdown starts (gated '
+        'per send: failing ones finish first, the others stay parked beyond the point a non-draining shutdown would return), '
         'whether a thread started before the shutdown keeps running afterwards. The first shutdown of a case enumerates ALL '
         'subsets of its fault points (plugins + sends <= 4) across consecutive cases. Run on a real deep.api.Deep with the '
         'gRPC module replaced by a fake channel. Non-trivial = some fault was active during a shutdown of a started agent, '
@@ -90,6 +92,15 @@ def gen(rng, tier):
                 'no_trace': rng.random() < 0.3, 'nplug': nplug}
         # a sequence with at least one shutdown of a started agent; all fault subsets of that shutdown
         tail = []
+        tag = [2]
+
+        def host_set():
+            tag[0] += 2
+            return {'op': 'host_set', 'sys': rng.choice([None, tag[0] - 1]), 'thr': rng.choice([None, tag[0]])}
+        if rng.random() < 0.45:
+            # the application changes its trace functions while the agent is shut down, then a second cycle
+            tail += [host_set(), {'op': 'start'}, {'op': 'hit'},
+                     {'op': 'shutdown', 'plugin_faults': [], 'task_faults': [], 'ntask': 0, 'cls': 'exc', 'running': False}]
         for _ in range(rng.randint(0, 4)):
             r = rng.random()
             if r < 0.25:
@@ -113,9 +124,12 @@ def gen(rng, tier):
         if tier == 'quick' and len(subsets) > 6:
             subsets = [subsets[0], subsets[-1]] + rng.sample(subsets[1:-1], 4)
         for sub in subsets:
+            tf = [i - nplug for i in sub if i >= nplug]
+            # sends still in flight when shutdown starts: always when an earlier send fails and a later one does not
+            later_ok = any(j not in tf and any(i < j for i in tf) for j in range(ntask))
             sd = {'op': 'shutdown', 'plugin_faults': [i for i in sub if i < nplug],
-                  'task_faults': [i - nplug for i in sub if i >= nplug], 'ntask': ntask,
-                  'cls': rng.choice(['exc', 'base']), 'running': rng.random() < 0.5, 'bg_thread': bg}
+                  'task_faults': tf, 'ntask': ntask,
+                  'cls': rng.choice(['exc', 'base']), 'running': later_ok or rng.random() < 0.4, 'bg_thread': bg}
             c = dict(base)
             c['ops'] = head + [sd, {'op': 'hit'}] + tail
             yield c
@@ -137,6 +151,12 @@ def corpus():
         # D18: a thread started before shutdown keeps running
         {'pre_sys': None, 'pre_thr': None, 'no_trace': False, 'nplug': 1,
          'ops': [{'op': 'start'}, {'op': 'hit'}, dict(sd, bg_thread=True), {'op': 'hit'}, {'op': 'late_config'}, {'op': 'hit'}]},
+        # an earlier pending send fails while a later one is still in flight: shutdown must wait for both
+        {'pre_sys': None, 'pre_thr': None, 'no_trace': False, 'nplug': 0,
+         'ops': [{'op': 'start'}, dict(sd, ntask=2, task_faults=[0], running=True)]},
+        # second cycle after the application changed its trace functions
+        {'pre_sys': 'h', 'pre_thr': 'h', 'no_trace': False, 'nplug': 1,
+         'ops': [{'op': 'start'}, dict(sd), {'op': 'host_set', 'sys': 3, 'thr': 4}, {'op': 'start'}, {'op': 'hit'}, dict(sd)]},
         # D19: the first plugin's shutdown raises
         {'pre_sys': 'h', 'pre_thr': None, 'no_trace': False, 'nplug': 3,
          'ops': [{'op': 'start'}, dict(sd, plugin_faults=[0], cls='exc')]},
@@ -231,6 +251,12 @@ def run_case(case, out):
                 before = nlogs()
                 ret = probe(3)
                 snapshot('hit', {'actions': nlogs() - before, 'ret': ret})
+            elif kind == 'host_set':
+                hs = fc_env.host_trace_function(op['sys']) if op['sys'] is not None else None
+                ht = fc_env.host_trace_function(op['thr']) if op['thr'] is not None else None
+                sys.settrace(hs)
+                threading.settrace(ht)
+                snapshot('host_set')
             elif kind == 'late_config':
                 handler.new_config([trig])
                 snapshot('late_config')
@@ -265,16 +291,20 @@ def run_case(case, out):
                 timer = deep.poll.timer
                 tthread = timer.thread if timer else None
                 ch = deep.grpc.channel
-                release = threading.Event()
+                gates = [threading.Event() for _ in range(op.get('ntask', 0))]
                 futures = []
                 if was:
                     for i in range(op.get('ntask', 0)):
                         def task(i=i):
-                            release.wait(5)
+                            gates[i].wait(8)
                             if i in op['task_faults']:
                                 raise fc_env.PluginError('send %d fails' % i)
                             return i
                         futures.append(deep.task_handler.submit_task(task))
+
+                def release_all():
+                    for gt in gates:
+                        gt.set()
                 if op.get('bg_thread') and was and not bg:
                     # a thread started before the shutdown: it has the agent's trace function (threading.settrace)
                     bg['gate'] = threading.Event()
@@ -297,9 +327,18 @@ def run_case(case, out):
                     if not bg['ready'].wait(10):
                         raise core.Infra('background thread did not reach its gate')
                 if op.get('running') and futures:
-                    threading.Timer(0.02, release.set).start()
+                    # the sends are in flight when shutdown starts: the failing ones finish first (flush is already
+                    # waiting), the others stay parked well beyond the moment a non-draining shutdown would return
+                    def staged():
+                        time.sleep(0.01)
+                        for i in op['task_faults']:
+                            if i < len(gates):
+                                gates[i].set()
+                        time.sleep(0.06)
+                        release_all()
+                    threading.Thread(target=staged).start()
                 else:
-                    release.set()
+                    release_all()
                 shut_before = len([e for e in rec.events if e[1] == 'shutdown'])
                 raised = None
                 t0 = time.time()
@@ -308,13 +347,14 @@ def run_case(case, out):
                 except BaseException as e:      # noqa: B902
                     raised = type(e).__name__
                 took = time.time() - t0
-                release.set()
+                done_at_return = all(f.done() for f in futures)     # BEFORE anything else is released
+                release_all()
                 npolls = len(ch.polls) if ch is not None else 0
                 time.sleep(0.02)
                 extra = {'raised': raised, 'was_started': was,
                          'timer_alive': bool(tthread and tthread.is_alive()),
                          'polls_after': (len(ch.polls) - npolls) if ch is not None else 0,
-                         'pending_done': all(f.done() for f in futures), 'ntask': len(futures),
+                         'pending_done': done_at_return, 'ntask': len(futures),
                          'shut_calls': [e[0] for e in rec.events if e[1] == 'shutdown'][shut_before:],
                          'slow': took > 8}
                 if bg.get('thread') is not None and 'after' not in bg['res'] and was:
@@ -376,6 +416,8 @@ def oracle(case, obs):
     for i, st in enumerate(obs['states']):
         where = f'after op {i} ({st["op"]})'
         hooks = (st['sys'], st['thr'])
+        if st['op'] == 'host_set':
+            pre = (case['ops'][i]['sys'], case['ops'][i]['thr'])       # what the application installed itself
         if case['no_trace']:
             if hooks != pre:
                 v.append(f'{where}: NO_TRACE is set but the trace functions are {hooks}, before the agent they were {pre}')
@@ -384,7 +426,8 @@ def oracle(case, obs):
                 v.append(f'{where}: agent started but the trace functions are {hooks}')
         else:
             if hooks != pre:
-                v.append(f'{where}: agent not started but the trace functions are {hooks}, expected the pre-existing {pre}')
+                v.append(f'{where}: agent not started but the trace functions are {hooks}, expected the ones present '
+                         f'before the (last) start {pre}')
         if st['op'] == 'start':
             if st['raised'] and not case.get('start_fails_first'):
                 v.append(f'{where}: start() raised {st["raised"]}')
@@ -442,6 +485,8 @@ def model_request(case, obs):
         elif k == 'shutdown':
             ops.append({'op': 'shutdown', 'plugin_faults': op['plugin_faults'], 'task_faults': op['task_faults'],
                         'base': op['cls'] == 'base', 'tasks': list(range(op.get('ntask', 0)))})
+        elif k == 'host_set':
+            ops.append({'op': 'host_set', 'sys': op['sys'], 'thr': op['thr']})
         elif k == 'late_config':
             ops.append({'op': 'new_config', 'cfg': [1]})
         elif k == 'poll_fail':
@@ -511,12 +556,25 @@ def nontrivial(case, obs):
                 any(o.get('plugin_faults') or o.get('task_faults') for o in sd))
 
 
+def valid(case):
+    """the application changes its trace functions only while the agent is not started (assumption of C14)"""
+    started = False
+    for o in case['ops']:
+        if o['op'] == 'start':
+            started = True
+        elif o['op'] == 'shutdown':
+            started = False
+        elif o['op'] == 'host_set' and started:
+            return False
+    return True
+
+
 def shrink(case):
     ops = case['ops']
     for i in range(len(ops)):
         c = dict(case)
         c['ops'] = ops[:i] + ops[i + 1:]
-        if c['ops']:
+        if c['ops'] and valid(c):
             yield c
     for i, o in enumerate(ops):
         if o['op'] == 'shutdown' and (o.get('plugin_faults') or o.get('task_faults') or o.get('bg_thread')):
